@@ -4,7 +4,7 @@ CONSTANTS
   MaxNested = 1
   Langs = {"c", "cpp", "py", "html"}
   Audits = {FALSE}
-  OpenSets = {{"gzip_mtime"}, {"ns_time"}, {"model_abspath"}, {"assert_abspath"}, {"filter_owner"}}
+  OpenSets = {{"gzip_mtime"}, {"ns_time"}, {"model_abspath"}, {"assert_abspath"}, {"filter_owner"}, {"template_dir_abspath"}, {"template_dir_spelling"}}
   SortedWalk = FALSE
   Vary = {"clock", "loc", "cwd"}
 INVARIANT EmitWitness
